@@ -822,6 +822,31 @@ def c12_structure(units, R):
                 if 'init' in dcl and strip_casts(dcl['init']) is c:
                     var = {'d': dcl['d'], 'n': dcl['n']}
         ok = False
+        direct = None
+        if var is None:
+            # the lookup itself is the branch condition: if (lookup(...) == NULL) return false;
+            node = node_containing(fcfg, c)
+            if node.kind == 'branch' and node.expr is not None:
+                e = strip_casts(node.expr)
+                nonnull_on = None
+                if e is c:
+                    nonnull_on = 'T'
+                elif e.get('k') == 'bin' and e['op'] in ('==', '!='):
+                    other = e['l'] if is_null_const(e['r']) else (e['r'] if is_null_const(e['l']) else None)
+                    if other is not None and strip_casts(other) is c:
+                        nonnull_on = 'T' if e['op'] == '!=' else 'F'
+                if nonnull_on is not None:
+                    direct = [y for (y, l) in fcfg.succ[node.id] if l is None or l[0] != nonnull_on]
+        if direct is not None:
+            seen = set(direct)
+            work = list(direct)
+            while work:
+                x = work.pop()
+                for (y, l) in fcfg.succ[x]:
+                    if y not in seen:
+                        seen.add(y)
+                        work.append(y)
+            ok = not [r for r in ftrue if r.id in seen and r.id in freg]
         if var is not None:
             node = node_containing(fcfg, c)
 
